@@ -53,12 +53,17 @@ func H_C18_scopeOps() {
 	ops := []string{"let", "set", "setorlet"}
 	op := ops[ndChoice("op", len(ops))]
 	declared := ndBool("declared")
+	declNil := ndBool("declaredNil") // the declared variable currently holds nil
 	site := ndChoice("site", 4)
 	pre := ""
 	if declared {
 		pre = `{{ x := "outer" }}`
+		if declNil {
+			pre = `{{ x := nil }}`
+		}
 	}
 	probe := `{{ isset(x) ? x : "-" }}`
+	_ = declNil
 	wrap := func(action string) (string, []string) {
 		body := `{{ opened := 1 }}` + action + `[` + probe + `]`
 		switch site {
@@ -203,9 +208,12 @@ func H_C18_yieldBlock() {
 	}
 	set := hxSet(nil,
 		"/lib.jet", `{{ block b() }}{{ count() }}[{{ . }}]{{ end }}`,
-		"/m.jet", `{{ import "/lib.jet" }}<{{ y() }}>`,
-		"/s.jet", `{{ import "/lib.jet" }}<{{ yield b() ctxv }}>`,
-		"/s0.jet", `{{ import "/lib.jet" }}<{{ yield b() }}>`,
+		"/m.jet", `{{ import "/lib.jet" }}<{{ y() }}>{{ include "/inc.jet" }}`,
+		"/inc.jet", `{{ if true }}{{ z := 1 }}<{{ y() }}>{{ end }}`,
+		"/s.jet", `{{ import "/lib.jet" }}<{{ yield b() ctxv }}>{{ include "/sinc.jet" }}`,
+		"/sinc.jet", `{{ if true }}{{ z := 1 }}<{{ yield b() ctxv }}>{{ end }}`,
+		"/s0.jet", `{{ import "/lib.jet" }}<{{ yield b() }}>{{ include "/s0inc.jet" }}`,
+		"/s0inc.jet", `{{ if true }}{{ z := 1 }}<{{ yield b() }}>{{ end }}`,
 	)
 	mk := func() VarMap {
 		vars := make(VarMap)
@@ -229,7 +237,8 @@ func H_C18_yieldBlock() {
 	}
 	vfReach("rendered")
 	vfAssert(err == nil, "renders")
-	vfAssert(log.String() == "body", "the block body runs exactly once")
+	vfAssert(log.String() == "body,body", "the block body runs exactly once per call")
+	log.events = nil
 	twin := "/s0.jet"
 	if withCtx {
 		twin = "/s.jet"
